@@ -275,7 +275,7 @@ def finish(prop, tier, seed, meta, results, inconclusive, wall):
         "foreign_observations": foreign[:10],
         "inconclusive_reasons": inconclusive,
         "shards": len(results),
-        "exhaustive": bool(meta.get("exhaustive", {}).get(tier, False)),
+        "exhaustive": bool(meta.get("exhaustive", {}).get(tier, False)) and not counters.get("stopped-by-time-budget") and not inconclusive,
     }
     cov.update(notes)
     ev = {
